@@ -597,8 +597,9 @@ def _from_format(a, pre):
     p.now = lambda tz=None: now if tz is None else now.in_timezone(tz)
     try:
         try:
-            back = p.from_format(text2, fmt, locale=a["locale"]) if a["locale"] != "en" or a.get("pass_locale") \
-                else p.from_format(text2, fmt)
+            with week_config(p, a.get("wcfg")):        # parsing must not depend on the process-wide week configuration
+                back = p.from_format(text2, fmt, locale=a["locale"]) if a["locale"] != "en" or a.get("pass_locale") \
+                    else p.from_format(text2, fmt)
             back = enc(back)
         except Exception as e:  # noqa: BLE001
             back = enc(e)
